@@ -1,7 +1,7 @@
 (* Property C17: no input line can crash or wedge the engine (command interpreter part). *)
 From Coq Require Import ZArith List.
 Require Import Str.
-Require Import Base Generated Position Make Gen SearchImp Session SessionProofs MakeSpec.
+Require Import Base Generated Position Make Gen SearchImp Session SessionProofs MakeSpec MakeProofs PerftProofs.
 
 (* every line that is not `position ... moves ...`: arbitrary text, malformed or truncated commands, numeric arguments of any
    size or sign, options out of range, commands before any position, rejected FENs -- handled without a panic, keeping the
@@ -26,7 +26,18 @@ Theorem C17_session_never_crashes : make_spec_statement -> forall run_search, se
   forall n s input, sess_ok s -> Forall (fun le => line_ok (fst le)) input -> forall w, main_loop run_search n s input <> Crashed w.
 Proof. exact main_loop_never_crashes_legal_moves. Qed.
 
+(* perft / tperft with ANY argument text never crash (premises discharged: C06 + C02) *)
+Theorem C17_perft_never_panics : perft_total /\ tperft_total.
+Proof. exact (conj perft_total_holds tperft_total_holds). Qed.
+(* the interpreter with only the search left as a premise *)
+Theorem C17_interpreter_total_modulo_search : forall run_search s e line,
+  search_total run_search -> sess_ok s -> line_ok line ->
+  exists s' o, handle run_search s e line = Ok (s', o) /\ sess_ok s'.
+Proof. intros rs s e line Hs. exact (handle_total_legal_moves make_spec rs s e line Hs perft_total_holds tperft_total_holds). Qed.
+
 Print Assumptions C17_interpreter_total.
+Print Assumptions C17_perft_never_panics.
+Print Assumptions C17_interpreter_total_modulo_search.
 Print Assumptions C17_interpreter_total_legal_moves.
 Print Assumptions C17_go_arguments_total.
 Print Assumptions C17_session_never_crashes.
